@@ -1,4 +1,5 @@
 from dataclasses import dataclass
+from io import SEEK_SET
 import numpy as np
 from typing import Callable
 from typing import List
@@ -193,6 +194,11 @@ def make_transcoder(
         )
     
     # begin
+    # always transcode from the beginning of the source streams, also 
+    # when they were already read by an earlier export
+    for data_stream in data_streams:
+        data_stream.stream.seek(0, SEEK_SET)
+
     buffer_sizes = get_buffer_sizes(data_streams)
 
     if len(data_streams) == 1 \
